@@ -127,6 +127,50 @@ def gen_strings(ctx):
     return small, short, kws, rand
 
 
+# names whose snake identifier is `extra` / near misses (controls)
+EXTRA_HITS = ["extra", "Extra", "EXTRA", "-extra", "-Extra", "extra'", "_extra", "extra ", "Extra-", "eXtra"]
+EXTRA_MISSES = ["extras", "extra_", "xtra", "e_x_t_r_a", "extra1", "Extr", "ex-tra"]
+BEFORE_EXTRA = ["a", "b", "Alpha", "b0", "delta", "e", "ext", "extr", "0", "_", "E"]
+AFTER_EXTRA = ["name", "id", "zeta", "f", "extrb", "extra0", "extraa", "x", "type", "~", "\u00e9"]
+COLLIDING_PAIRS = [("foo-bar", "foo_bar"), ("a-b", "a_b"), ("a'", "a"), ("self", "self_"), ("1", "x1"), ("", "x"),
+                   ("fooBar", "foo_bar"), ("FOO", "foo"), ("a b", "a-b"), ("type", "type_"), ("\u00c9t\u00e9", "\u00e9t\u00e9"),
+                   ("m-n", "m_n"), ("zz'", "zz"), ("A1", "a1")]
+FILLERS = ["", "0", "A", "Z", "a", "a0", "a_", "aa", "f", "foo", "foo0", "foo_", "fooz", "m", "m0", "s", "t", "x", "x0",
+           "y", "z", "zz0", "zzz", "~", "_", "-", "\u00e9", "\u4e2d"]
+
+
+def position_cases(rnd, tier):
+    """(kind, names, additionalProperties|None): colliding names at every relative position of lists of 2-5
+    properties.  struct_members sorts by IDENTIFIER (stable, starting from the BTreeMap order of the JSON names)
+    and pushes the flattened `extra` field after the sort."""
+    out = []
+    n_each = 4 if tier == "quick" else 16
+    for h in EXTRA_HITS + EXTRA_MISSES:
+        for nb, na in [(0, 1), (1, 1), (0, 2), (2, 1), (1, 2), (2, 2), (1, 0), (2, 0), (3, 0), (0, 3), (3, 1), (1, 3)]:
+            for _ in range(1 if tier == "quick" else 3):
+                others = rnd.sample(BEFORE_EXTRA, nb) + rnd.sample(AFTER_EXTRA, na)
+                names = dedupe([h] + others)
+                rnd.shuffle(names)
+                out.append(("propsx", names, rnd.choice([{"type": "integer"}, {"type": "string"}, {}])))
+    # two hits together and a hit with a colliding pair
+    out.append(("propsx", ["extra", "Extra", "name"], {"type": "integer"}))
+    out.append(("propsx", ["extra", "foo-bar", "foo_bar", "zeta"], {"type": "integer"}))
+    out.append(("propsx", ["foo-bar", "foo_bar", "zeta"], {"type": "integer"}))
+    for a, b in COLLIDING_PAIRS:
+        derived = [a + "0", b + "0", a + "z", "0" + a, a[:-1], b[:-1], a + "_", b + "-"]
+        pool = dedupe([f for f in FILLERS + derived if f not in (a, b)])
+        for k in (1, 2, 3):
+            for _ in range(n_each):
+                names = dedupe([a, b] + rnd.sample(pool, k))
+                rnd.shuffle(names)
+                out.append(("props", names, None))
+                if rnd.random() < 0.3:
+                    out.append(("propsx", names, {"type": "integer"}))
+                out.append(("enum", names, None))
+                out.append(("defs", names, None))
+    return out
+
+
 def dedupe(xs):
     seen = set()
     out = []
@@ -451,6 +495,8 @@ def run(ctx):
             if fn.endswith(".json"):
                 corpus.append(json.load(open(os.path.join(cdir, fn))))
     corpus_strings = [s for c in corpus for s in c.get("names", [])]
+    poscases = position_cases(random.Random(ctx.seed * 131 + 7), ctx.tier)
+    corpus_strings = dedupe(corpus_strings + [n for _, names, _ in poscases for n in names])
     g_small = dedupe(corpus_strings + kws + ["".join(chr(x) for x in k) for k, _ in kwv] + small + short)
     g_rand = dedupe(rand)
     rnd = random.Random(ctx.seed * 31 + 5)
@@ -588,6 +634,17 @@ def run(ctx):
     for s in EXTRA_FORMS + rnd.sample(singles, 60):
         pcases.append(("propsx", [s], props_case([s], {"type": "integer"})))
         pcases.append(("propsx", dedupe([s, "b"]), props_case(dedupe([s, "b"]), {"type": "string"})))
+    # colliding names at every relative position (sorted by identifier; `extra` pushed after the sort)
+    for kind, names, ap in poscases:
+        if kind == "propsx":
+            pcases.append(("propsx", names, props_case(names, ap)))
+        elif kind == "props":
+            pcases.append(("props", names, props_case(names)))
+        elif kind == "enum":
+            pcases.append(("enum", names, enum_case(names)))
+        else:
+            pcases.append(("defs", names, defs_case(names)))
+    ctx.coverage["position_cases"] = len(poscases)
     # triples and larger groups
     for _ in range(150 if ctx.tier == "quick" else 1500):
         grp = dedupe(rnd.sample(singles, rnd.randrange(3, 7)))
@@ -609,6 +666,19 @@ def run(ctx):
                         for f, n in zip(sorted(it["fields"]["fields"], key=lambda f: f["name"]), sorted(names)):
                             if serde_rename(f["serde"]) is None:
                                 f["serde"].append(["rename", f["name"]])
+            if mutate == "adjacent-only-check" and kind == "propsx":
+                # emulates `unique(names)` replaced by a scan of adjacent pairs of the list that is sorted by
+                # identifier BEFORE the flattened `extra` is pushed: a property `extra` that is not the last
+                # one in identifier order is no longer seen to collide
+                ids = sorted(san[n][0] for n in names)
+                if ids.count("extra") == 1 and len(set(ids)) == len(ids) and ids[-1] != "extra":
+                    byid = sorted(names, key=lambda n: san[n][0])
+                    res.clear()
+                    res.update({"steps": [{"r": "ok", "id": 0}], "render": {"r": "ok", "scan": {"items": [
+                        {"mod": "", "kind": "struct", "name": "T", "fields": {"k": "named", "fields": [
+                            {"name": san[n][0], "serde": ([] if san[n][0] == n else [["rename", n]]), "ty": "String",
+                             "vis": "pub"} for n in byid] + [
+                            {"name": "extra", "serde": [["flatten"]], "ty": "HashMap", "vis": "pub"}]}}]}}})
             if mutate == "no-field-unique-check" and kind == "props" and names == ["foo-bar", "foo_bar"]:
                 # emulates structs.rs:119-144 (fix 5896b59) removed: duplicate fields are emitted
                 res.clear()
